@@ -17,7 +17,10 @@ RULE = ('systematic sweep kernel x element type (all members of the fused lists 
         'reversed view of a garbage buffer incl. NaN/inf), OpenMP thread count 1..16 and value class '
         '(small, dtype extremes, huge same-sign, mid, overflowing, quarters, general floats) cycling, plus '
         'random combinations, sizes 0/1/few/70 rows, every thread count on 40-120 row problems, large '
-        '(2000-6000 rows) problems under all 16 thread counts repeated; malformed stream: wrong ranks, width '
+        '(2000-6000 rows) problems under all 16 thread counts repeated; shape sweep at fast-path thresholds '
+        '(few very wide rows n in 1,2,3,7,15 x w 1023..65536, 20000-300000 rows of width 1-2, n around the '
+        'thread count, n*w in the millions) with threads 1,2,4,8,16 x 3 repetitions, bit-compared with the '
+        '1-thread result and the exact value; malformed stream: wrong ranks, width '
         'mismatches, out of wrong dtype/length/rank/0-d/read-only, mixed / unsupported / byte-swapped dtypes. '
         'A valid case is non-trivial when n>0 and w>0; distinct by canonical input.')
 ASSUMPTIONS = [
@@ -1060,11 +1063,71 @@ def big_sweeps(ctx):
     return specs
 
 
+def _gen_spec(rng, kernel, dt, n, w, layout, sweep, repeat, shape_class):
+    lo, hi = (0, 30) if dt.startswith('uint') else (-30, 30)
+    if layout == 'every-other-row':
+        X = {'dtype': dt, 'gen': {'seed': int(rng.integers(0, 2 ** 31)), 'lo': lo, 'hi': hi, 'size': 2 * n * w},
+             'shape': [2 * n, w], 'order': 'C', 'index': [[0, None, 2], [0, None, 1]]}
+    else:
+        X = {'dtype': dt, 'gen': {'seed': int(rng.integers(0, 2 ** 31)), 'lo': lo, 'hi': hi, 'size': n * w},
+             'shape': [n, w], 'order': layout}
+    return {'kernel': kernel, 'big': True, 'X': X,
+            'y': {'dtype': dt, 'gen': {'seed': int(rng.integers(0, 2 ** 31)), 'lo': lo, 'hi': hi, 'size': w},
+                  'shape': [w]},
+            'out': None, 'sweep': sweep, 'repeat': repeat, 'shape_class': shape_class}
+
+
+SHAPE_DTYPES = {'euclidean': ['float64', 'float32', 'int16'], 'manhattan': ['float64', 'float32', 'int16'],
+                'hamming': ['int16', 'uint8', 'int64']}
+
+
+def shape_sweeps(ctx):
+    """Extreme aspect ratios and sizes, where a performance fast path (split a row across threads when
+    n < threads, blocked / collapsed loops for wide or huge inputs, serial path for tiny ones) would
+    plausibly switch in: few very wide rows (n in 1,2,3,threads-1; w around 1024/4096/8192/20000),
+    very many rows of width 1-2, n around the thread count, n*w in the millions.  Small-integer values
+    (exact answer known); threads 1,2,4,8,16, each repeated 3x; every result must be bit-identical to
+    the 1-thread result and to the exact value."""
+    rng = ctx.rng
+    sweep = [1, 2, 4, 8, 16]
+    rep = 3
+    shapes = {
+        'few-wide': [(n, w) for n in (1, 2, 3, 7, 15) for w in (4096, 8192, 20000)],
+        'few-wide-threshold': [(n, w) for n in (1, 3) for w in (1023, 1024, 1025, 4095, 4097, 16384, 65536)],
+        'many-narrow': [(n, w) for n in (20000, 100000, 300000) for w in (1, 2)],
+        'n-near-threads': [(n, w) for n in (2, 4, 5, 8, 9, 16, 17, 32) for w in (3, 512, 5000)],
+        'huge-total': [(1000, 2048), (4096, 512), (64, 40000), (200000, 8), (1500, 1500)],
+    }
+    layouts = ['C', 'F', 'every-other-row']
+    specs = []
+    k = int(rng.integers(0, 100))
+    for kernel in ('euclidean', 'manhattan', 'hamming'):
+        for cls, lst in shapes.items():
+            if ctx.thorough:
+                pick = lst
+            else:
+                m = {'few-wide': 3, 'few-wide-threshold': 2, 'many-narrow': 1, 'n-near-threads': 2,
+                     'huge-total': 1}[cls]
+                if cls == 'few-wide':      # each width once, n drawn from the set
+                    pick = [(int(rng.choice([1, 2, 3, 7, 15])), w) for w in (4096, 8192, 20000)]
+                else:
+                    pick = [lst[int(i)] for i in rng.choice(len(lst), size=m, replace=False)]
+            for n, w in pick:
+                k += 1
+                dt = SHAPE_DTYPES[kernel][k % 3]
+                specs.append(_gen_spec(rng, kernel, dt, n, w, layouts[(k // 3) % 3] if n * w < 2000000 else 'C',
+                                       sweep, rep, cls))
+    return specs
+
+
 def check_big(ctx, spec, wres):
     import hashlib as _h
     np = _np()
     rp = {k: spec[k] for k in ('kernel', 'X', 'y', 'out', 'sweep', 'repeat', 'big')}
-    ctx.case(rp, nontrivial=True, tags=['big-sweep', 'kernel=' + spec['kernel'], 'dtype=' + spec['X']['dtype']])
+    if 'shape_class' in spec:
+        rp['shape_class'] = spec['shape_class']
+    ctx.case(rp, nontrivial=True, tags=['big-sweep', 'kernel=' + spec['kernel'], 'dtype=' + spec['X']['dtype'],
+                                        'shape=' + spec.get('shape_class', 'many-rows')])
     if wres is None:
         ctx.violation('the process died during the large thread sweep', rp)
         return
@@ -1086,11 +1149,15 @@ def check_big(ctx, spec, wres):
     ds = set(wres.get('digests', []))
     if wres['ret_shape'] != [X.shape[0]] or wres['ret_dtype'] != 'float64':
         ctx.violation('large sweep: wrong result shape/dtype %s %s' % (wres['ret_shape'], wres['ret_dtype']), rp)
-    elif len(ds) != 1:
-        ctx.violation('%s: results differ between thread counts / repetitions (%d distinct results over %d runs)'
-                      % (spec['kernel'], len(ds), len(wres['digests'])), rp)
     elif ds != {dg}:
-        ctx.violation('%s: large input result differs from the exact value' % spec['kernel'], rp)
+        rep = spec.get('repeat', 1)
+        runs = [(t, r) for t in spec['sweep'] for r in range(rep)]
+        wrong = sorted(set(t for (t, r), g in zip(runs, wres['digests']) if g != dg))
+        ctx.violation('%s(%s) on a %dx%d input: result differs from the exact value with %s OpenMP thread(s) '
+                      '(%d distinct results over %d runs with threads %s x %d repetitions%s)'
+                      % (spec['kernel'], spec['X']['dtype'], X.shape[0], X.shape[1], wrong, len(ds),
+                         len(wres['digests']), spec['sweep'], rep,
+                         '; the 1-thread result is exact' if 1 in spec['sweep'] and 1 not in wrong else ''), rp)
     ctx.tag('big-sweep-runs', len(wres.get('digests', [])))
 
 
@@ -1162,7 +1229,7 @@ def run(ctx):
     arithmetic_scope(ctx)
     valid = gen_valid_cases(ctx)
     malformed = malformed_cases(ctx.rng, ctx.thorough)
-    bigs = big_sweeps(ctx)
+    bigs = big_sweeps(ctx) + shape_sweeps(ctx)
     metric_specs = [{'op': 'metric', 'metric': m} for m in ('euclidean', 'manhattan', 'cityblock', 'hamming',
                                                              'no-such-metric')]
     thread_specs = [{'op': 'threads', 'threads': t} for t in (1, 3, 16)]
